@@ -308,3 +308,22 @@ check('C02', 'E4', 'exploration',
       'client handler tasks started in arrival order and run to completion; '
       'concurrent emitters excluded (documented as unsupported).',
       'DESIGN.md 6/C02')
+
+check('C14', 'E1', 'model_checking',
+      'lockstep explicit-state BFS over threaded/asyncio twin worlds '
+      '(parity oracle only)',
+      'Every transition applies the same operation to a threaded world and '
+      'to its asyncio twin and requires equal normalised observations: '
+      'frames per peer in per-peer order, handler and callback log, API '
+      'results and exception types+messages, manager snapshot, published '
+      'pub/sub messages. Server twins (2 transports x 2 namespaces, '
+      'always_connect on/off, function / class-based handlers): all '
+      'histories up to depth 4 (7); client twins and 2-host pub/sub cluster '
+      'twins: to closure. At every state a probe battery runs on both twins '
+      '(events with 11 return shapes incl. falsy values, text and binary, 14 '
+      'malformed frames, stray binary, emits, send, stale and wrong-'
+      'namespace API calls, unknown/zero ACKs, bad channel items). '
+      'SimpleClient/AsyncSimpleClient run 4 scripted sequential scenarios.',
+      'handlers inline (async_handlers off); namespace-helper parity is '
+      'carried by C17; admin classes are outside the property.',
+      'DESIGN.md 6/C14')
